@@ -32,13 +32,6 @@ type failKey struct{ typ, field, class string }
 // kindGroup folds the detailed outcome into the part of the finding key.
 func kindGroup(kind string) string {
 	raw := ""
-	if strings.HasPrefix(kind, "raw-") {
-		if strings.Contains(kind, "panic") {
-			return "raw-panic"
-		}
-		// a struct filled with raw (unescaped) octets by the caller: one finding per cell
-		return "raw-struct-string"
-	}
 	switch {
 	case strings.Contains(kind, "panic"):
 		return raw + "panic"
@@ -175,12 +168,16 @@ func runOne(g *grec, field, class string) {
 		return
 	}
 	if rv, changed := rawVariant(rr); changed {
-		stats["raw_variants_checked"]++
-		o := checkRecord(rv, nil)
-		if o.Kind != "" {
-			o.Kind = "raw-" + o.Kind
+		// Observation only: a struct whose strings a caller filled with raw
+		// (unescaped) octets comes neither from UnpackRR nor from NewRR, so the
+		// property does not speak about it. Counted, not reported.
+		stats["raw_struct_variants_observed"]++
+		if o := checkRecord(rv, nil); o.Kind != "" {
+			stats["raw_struct_variants_not_reread"]++
+			if field != "" {
+				stats["raw_struct_not_reread_"+tn+"_"+field+"_"+class]++
+			}
 		}
-		report("struct-raw-strings", o)
 	}
 }
 
@@ -275,13 +272,17 @@ func noRdata(types []uint16) {
 	var firstOutcome outcome
 	checked := 0
 	for _, t := range types {
-		rr := dns.TypeToRR[t]()
-		*rr.Header() = dns.RR_Header{Name: "x.example.", Rrtype: t, Class: dns.ClassINET, Ttl: 5}
+		// the record UnpackRR returns for RDLENGTH 0 (also what NewRR("x.example. 5 IN A") returns)
 		want := append(wireName([][]byte{[]byte("x"), []byte("example")}), 0, 0, 0, 1, 0, 0, 0, 5, 0, 0)
 		want[len(want)-10], want[len(want)-9] = byte(t>>8), byte(t)
+		rr, off, err := dns.UnpackRR(want, 0)
+		if err != nil || off != len(want) {
+			stats["generated_wire_rejected_by_unpack"]++
+			continue
+		}
 		var text string
 		if Protect(func() string { text = rr.String(); return "" }) == "panic" {
-			Viol("C05/"+typeName(t)+"/rdata/none/panic", "String panicked on a record without RDATA", violIn{Type: typeName(t)})
+			Viol("C05/"+typeName(t)+"/rdata/none/panic", "String panicked on a record without RDATA", violIn{Type: typeName(t), Origin: "wire", Wire: Hx(want)})
 			continue
 		}
 		checked++
@@ -299,7 +300,7 @@ func noRdata(types []uint16) {
 	// one finding (the header printer's trailing TAB), keyed by how many types show it
 	Viol("C05/ALL/rdata/none/not-reread-"+strconv.Itoa(len(failing))+"-of-"+strconv.Itoa(checked)+"-types",
 		"a record without RDATA (dynamic update) prints text that NewRR does not read back as the same record: "+firstOutcome.Detail,
-		violIn{Type: "ALL", Origin: "struct", Text: firstOutcome.Text, Detail: strings.Join(failing, " ")})
+		violIn{Type: "ALL", Origin: "wire (RDLENGTH 0), e.g. 0178076578616d706c6500000100010000000500 00", Text: firstOutcome.Text, Detail: strings.Join(failing, " ")})
 }
 
 // codeSweep: every type and class code point, as mnemonic and as TYPEnnn / CLASSnnn.
@@ -309,7 +310,7 @@ func codeSweep(r *Rng, tier string) {
 		var rr dns.RR
 		var err error
 		if Protect(func() string { rr, err = dns.NewRR(text); return "" }) == "panic" {
-			Viol(key+"/panic", what+": NewRR panicked", violIn{Text: text})
+			Viol(key+"/panic", what+": NewRR panicked", violIn{Origin: "text", Text: text})
 			return false
 		}
 		if err != nil || rr == nil {
@@ -317,12 +318,12 @@ func codeSweep(r *Rng, tier string) {
 			if err != nil {
 				d = err.Error()
 			}
-			Viol(key+"/reject", what+": "+d, violIn{Text: text, Detail: d})
+			Viol(key+"/reject", what+": "+d, violIn{Origin: "text", Text: text, Detail: d})
 			return false
 		}
 		if rr.Header().Rrtype != wantType || rr.Header().Class != wantClass {
 			Viol(key+"/wrong-code", what+": got type "+strconv.Itoa(int(rr.Header().Rrtype))+" class "+strconv.Itoa(int(rr.Header().Class)),
-				violIn{Text: text})
+				violIn{Origin: "text", Text: text})
 			return false
 		}
 		return true
@@ -467,14 +468,19 @@ func runC05(r *Rng, tier string, n int) {
 
 	// keep the stat line small: fold the per-field rejection counters
 	out := map[string]int{}
-	rej := 0
+	rej, rawCells := 0, 0
 	for k, v := range stats {
 		if strings.HasPrefix(k, "generated_wire_rejected_") && k != "generated_wire_rejected_by_unpack" {
 			rej++
 			continue
 		}
+		if strings.HasPrefix(k, "raw_struct_not_reread_") {
+			rawCells++
+			continue
+		}
 		out[k] = v
 	}
 	out["generator_cells_rejected_by_unpack"] = rej
+	out["raw_struct_cells_not_reread"] = rawCells
 	Stat(out)
 }
